@@ -595,3 +595,94 @@ Proof.
   - intros H. unfold S_minrsb. rewrite H. reflexivity.
   - reflexivity.
 Qed.
+
+(* ------------------------------------------------------------------ *)
+(* I. what Decode returns is a fixed point of Encode/Decode            *)
+
+Lemma i16_of_range a b : U8 a -> U8 b -> I16 (i16_of a b).
+Proof. unfold U8, i16_of. intros Ha Hb. apply to_i16_range. lia. Qed.
+
+Lemma dec_short_shape prev : forall n d ws ls,
+  (length d <= n)%nat -> Bytes d -> I16 prev -> dec_short prev d = Ok (ws, ls) ->
+  length ws = length ls /\ Forall I16 ws /\ Forall I16 ls /\ fill O prev ws = ws.
+Proof.
+  induction n as [|n IH]; intros d ws ls Hn Hb Hp H.
+  - destruct d; [|cbn [length] in Hn; lia]. injection H as <- <-. repeat split; constructor.
+  - destruct d as [|a [|b r]]; [injection H as <- <-; repeat split; constructor|discriminate|].
+    cbn [dec_short] in H.
+    destruct (dec_short prev r) as [[ws' ls']| | |] eqn:E; try discriminate.
+    injection H as <- <-.
+    apply Bytes_cons in Hb. destruct Hb as [Ha Hb]. apply Bytes_cons in Hb. destruct Hb as [Hb Hr].
+    cbn [length] in Hn. destruct (IH r ws' ls' ltac:(lia) Hr Hp E) as (L & F1 & F2 & F3).
+    cbn [length fill]. rewrite F3. repeat split; try lia.
+    + constructor; assumption.
+    + constructor; [now apply i16_of_range|assumption].
+Qed.
+
+Lemma dec_long_shape : forall k prev d ws ls,
+  Bytes d -> I16 prev -> dec_long k prev d = Ok (ws, ls) ->
+  length ws = length ls /\ Forall I16 ws /\ Forall I16 ls /\ fill k prev ws = ws.
+Proof.
+  induction k as [|k IH]; intros prev d ws ls Hb Hp H.
+  - cbn [dec_long] in H. apply (dec_short_shape prev (length d) d); auto.
+  - cbn [dec_long] in H. destruct d as [|a [|b [|c [|e r]]]]; try discriminate.
+    destruct (dec_long k (i16_of a b) r) as [[ws' ls']| | |] eqn:E; try discriminate.
+    injection H as <- <-.
+    repeat (apply Bytes_cons in Hb; let H := fresh "Hx" in destruct Hb as [H Hb]).
+    assert (Hw : I16 (i16_of a b)) by now apply i16_of_range.
+    destruct (IH _ r ws' ls' Hb Hw E) as (L & F1 & F2 & F3).
+    cbn [length fill]. rewrite F3. repeat split; try lia.
+    + constructor; assumption.
+    + constructor; [now apply i16_of_range|assumption].
+Qed.
+
+Lemma numlong_of_filled k prev ws :
+  fill k prev ws = ws -> (S_numLong ws <= Nat.max k 1)%nat.
+Proof.
+  intros H. destruct k as [|k].
+  - apply fill0_id_iff in H. destruct ws as [|w t]; [cbn; lia|].
+    cbn [forallb] in H. apply andb_true_iff in H. destruct H as [H1 H2].
+    cbn [S_numLong]. assert (prev = w) by lia. subst. rewrite H2. lia.
+  - apply fill_id_iff in H; lia.
+Qed.
+
+Lemma hmtx_decode_fixpoint_gen hhea hm d ws ls :
+  Bytes hhea -> Bytes hm ->
+  M_hmtx_decode hhea (Some hm) = Ok d -> d_widths d = Some ws -> d_lsb d = Some ls ->
+  let i := mkHinfo (Some ws) None (Some ls) (d_ascent d) (d_descent d) (d_linegap d) (d_caretoffset d) in
+  exists hhea' hm',
+    M_hmtx_encode i (d_rise d) (d_run d) = Ok (hhea', Some hm') /\
+    M_hmtx_decode hhea' (Some hm') = Ok d.
+Proof.
+  intros Hb Hm H Hw Hl. cbv zeta.
+  unfold M_hmtx_decode in H.
+  repeat match type of H with
+         | oget ?e _ = Ok _ =>
+             let E := fresh "E" in
+             destruct e as [[? ?]|] eqn:E; [cbn [oget] in H; cbv beta iota in H|discriminate H]
+         end.
+  destruct (negb _) in H; [discriminate|]. destruct (negb _) in H; [discriminate|].
+  destruct (dec_long _ 0 hm) as [[ws' ls']| | |] eqn:Ed; try discriminate.
+  injection H as <-. cbn [d_widths d_lsb d_ascent d_descent d_linegap d_rise d_run d_caretoffset] in *.
+  destruct (dec_long_shape _ 0 hm ws' ls' Hm I16_0 Ed) as (L & F1 & F2 & F3).
+  assert (ws' = ws) by (destruct ws'; [discriminate|injection Hw as <-; reflexivity]).
+  assert (ls' = ls) by (destruct ls'; [discriminate|injection Hl as <-; reflexivity]).
+  subst ws' ls'.
+  (* ranges of the scalars read from hhea *)
+  destruct (get32_range _ _ _ Hb E) as [_ B0].
+  destruct (geti16_range _ _ _ B0 E0) as [R1 B1]. destruct (geti16_range _ _ _ B1 E1) as [R2 B2].
+  destruct (geti16_range _ _ _ B2 E2) as [R3 B3]. destruct (geti16_range _ _ _ B3 E3) as [_ B4].
+  destruct (geti16_range _ _ _ B4 E4) as [_ B5]. destruct (geti16_range _ _ _ B5 E5) as [_ B6].
+  destruct (geti16_range _ _ _ B6 E6) as [_ B7]. destruct (geti16_range _ _ _ B7 E7) as [R8 B8].
+  destruct (geti16_range _ _ _ B8 E8) as [R9 B9]. destruct (geti16_range _ _ _ B9 E9) as [R10 B10].
+  destruct (geti16s_range _ _ _ _ B10 E10) as [_ B11]. destruct (geti16_range _ _ _ B11 E11) as [_ B12].
+  destruct (get16_range _ _ _ B12 E12) as [R13 _].
+  rewrite Hw, Hl.
+  match goal with |- exists _ _, M_hmtx_encode ?i ?r ?u = _ /\ _ =>
+    apply (hmtx_roundtrip_gen i r u ws ls) end; try assumption; try reflexivity.
+  - destruct ws; [discriminate|cbn [length]; lia].
+  - pose proof (numlong_of_filled _ _ _ F3) as Hn. rewrite numlong_agree.
+    unfold U16 in R13. lia.
+  - unfold hinfo_ok; cbn. refine (conj _ (conj _ (conj _ (conj _ (conj _ _))))); assumption.
+  - intros e He. discriminate.
+Qed.
